@@ -853,7 +853,10 @@ func (r *runner) checkFinal(s *scen) {
 	}
 	o := s.observe(s.hash)
 	if s.ending != "done" || !o.generated || !o.genG || !o.genR {
-		if s.life != nil && s.life.overStored {
+		// narrow classifier for the recorded finding: round1.Start was left by a panic (stored messages
+		// still present after the party is in round1) AND an honest sender's message is among them while
+		// its share is missing. Anything else that stops a quorum is a new violation.
+		if s.life != nil && s.life.overStored && o.st.Round == 1 && len(o.st.Future) > 0 && s.lostInStart(o) {
 			r.addViol(s, "stored-share-lost-by-start-panic",
 				fmt.Sprintf("%d >= k=%d honest members' valid shares were delivered after the proposal was accepted from a chain notification, but the first one was stored by round0 next to a message with an over-long signer id; round1.Start ranged over that message first, its panic (ID.Serialize) escaped the loop and the honest share was never processed (its id stays in futureMessages, a re-send is refused)", len(s.honest), s.ks.k),
 				map[string]interface{}{"state": o.line, "note": "depends on Go map iteration order: the searcher repeats the script"})
@@ -907,4 +910,21 @@ func (r *runner) recheckRetained() []string {
 		}
 	}
 	return changed
+}
+
+// lostInStart: some honest sender whose message was delivered has no share in gSign although the
+// threshold was not reached before it arrived — and stored messages are still lying around.
+func (s *scen) lostInStart(o observed) bool {
+	have := map[int]bool{}
+	for _, e := range o.st.GSign {
+		if i, ok := s.ks.idx[e.IdHex]; ok {
+			have[i] = true
+		}
+	}
+	for i := range s.honest {
+		if !have[i] {
+			return !o.st.GRecovered
+		}
+	}
+	return false
 }
